@@ -1,7 +1,7 @@
 (* Props/C15.v — property C15: the element registry and class defaults can always be restored.
    Only statements; proofs are [exact <lemma>] into Circuit/Registry_facts.v. *)
 From Coq Require Import ZArith Bool List.
-From PV Require Import Base.Num Base.Outcome Circuit.Tree Circuit.Token Circuit.Registry Circuit.Registry_facts gen.Classes_gen.
+From PV Require Import Base.Num Base.Outcome Circuit.Tree Circuit.Token Circuit.Registry Circuit.Registry_facts Circuit.Token_decode gen.Classes_gen.
 Import ListNotations.
 
 (* For every table of built-ins (a dictionary with distinct keys, whose private entries are built-in symbols and whose
@@ -62,5 +62,17 @@ Theorem C15_builtin_symbols_tokenize_uniquely :
 Proof. split; vm_compute; reflexivity. Qed.
 Print Assumptions C15_builtin_symbols_tokenize_uniquely.
 
-(* NOT PROVED in general (kept visible): for arbitrary user symbols of the validated shape [A-Z][a-z0-9_]* the same unique
-   decodability; exercised by C04's atom enumeration. *)
+(* ... and the same for EVERY set of registered symbols, built-in or user-defined, at any point of any history: a symbol that
+   register_element accepts has the shape [A-Z][a-z0-9_]* (valid_symbol, the model of _validate_element_symbol, tied by the
+   correspondence check), and any concatenation of any number of such symbols is split by the scanner into exactly those
+   symbols.  Unbounded: all symbols, all lengths, all sequences. *)
+Theorem C15_valid_symbols_tokenize_uniquely :
+  forall syms : list str, List.Forall (fun s => valid_symbol s = true) syms ->
+  tokenize (concat syms) = Ok (map ident_tok syms).
+Proof. exact symbols_tokenize_uniquely. Qed.
+Print Assumptions C15_valid_symbols_tokenize_uniquely.
+
+(* non-vacuity: the live built-in symbols all satisfy the hypothesis *)
+Theorem C15_builtin_symbols_are_valid : forallb valid_symbol builtin_symbols = true.
+Proof. vm_compute. reflexivity. Qed.
+Print Assumptions C15_builtin_symbols_are_valid.
